@@ -170,6 +170,7 @@ type World struct {
 	pgClasses   []string
 	httpSizes   []int
 	okOutcomes  int
+	scriptFired map[int]bool
 	pendingJump time.Duration
 	outcomeQ    []outcomeRec
 	onHookEvent func(name string, kv ...any)
@@ -595,7 +596,7 @@ func outcomeName(err error) string {
 func Run(t *testing.T, plan *Plan, st *core.Stream, extra Extra, keepLog bool) (res *Result) {
 	installHooks()
 	res = &Result{Prop: plan.Prop, Seed: plan.Seed, Stats: map[string]int{}, PlanDigest: plan.Digest()}
-	w := &World{t: t, plan: plan, st: st, srcs: map[string]*srcState{}, stats: res.Stats, projCache: map[string][]string{}, extra: extra}
+	w := &World{t: t, plan: plan, st: st, srcs: map[string]*srcState{}, stats: res.Stats, projCache: map[string][]string{}, extra: extra, scriptFired: map[int]bool{}}
 	func() {
 		defer func() {
 			if r := recover(); r != nil {
@@ -769,6 +770,7 @@ func (w *World) semHash() string {
 	sort.Strings(names)
 	var sb strings.Builder
 	keep := map[string]bool{"src_name": true, "ig_name": true, "num": true, "hash": true}
+	newestOnly := len(w.plan.ScriptChain) > 0 || w.plan.Faults.MaxReorgs > 0
 	for _, k := range names {
 		ts := snap.Tables[k]
 		if strings.HasPrefix(k, "shovel.") && k != cursorTable {
@@ -776,6 +778,12 @@ func (w *World) semHash() string {
 		}
 		var rows []string
 		for _, r := range ts.Rows {
+			if k == cursorTable && newestOnly {
+				// with reorgs the retained history depends on when the
+				// replacement landed relative to the steps; only the newest
+				// position of each pair is comparable across runs
+				continue
+			}
 			if k == cursorTable {
 				var parts []string
 				for i, c := range ts.Cols {
@@ -789,8 +797,20 @@ func (w *World) semHash() string {
 				rows = append(rows, fakepg.FormatRow(ts.Cols, r, nil))
 			}
 		}
+		if k == cursorTable && newestOnly {
+			for _, ps := range w.pairs {
+				cs := w.cursorsOf(snap, ps)
+				if len(cs) > 0 {
+					c := cs[len(cs)-1]
+					rows = append(rows, fmt.Sprintf("%s newest=%d/%x", ps.key, c.num, c.hash))
+				}
+			}
+		}
 		sort.Strings(rows)
 		sb.WriteString(k + "\n" + strings.Join(rows, "\n") + "\n")
+	}
+	if os.Getenv("VERIF_DEBUG_SEM") != "" {
+		fmt.Fprintln(os.Stderr, "SEM<<"+sb.String()+">>")
 	}
 	return fmt.Sprintf("%x", node.Keccak([]byte(sb.String()))[:8])
 }
